@@ -26,8 +26,9 @@ Recs == ndJsonDeserialize(IOEnv.TRACE_FILE)
 
 VARIABLES tid, acc, slk, cur, w, sl, lastw, cnt, tot, hit, sat,
           cura,     \* weight * traversals of the OPEN route per required edge (only tracked when r.prodcap >= 0)
-          curs      \* slack * traversals of the OPEN route per required edge (ditto)
-vars == <<tid, acc, slk, cur, w, sl, lastw, cnt, tot, hit, sat, cura, curs>>
+          curs,     \* slack * traversals of the OPEN route per required edge (ditto)
+          curn      \* traversals of the OPEN route per required edge (only tracked when r.repcaps is given)
+vars == <<tid, acc, slk, cur, w, sl, lastw, cnt, tot, hit, sat, cura, curs, curn>>
 
 R == Recs[tid]
 IDLE == "-"
@@ -56,6 +57,8 @@ SlackBudget(r) ==   \* largest total slack (data units) that is still strictly b
   IF r.want = "any" THEN r.maxslack
   ELSE ((r.obj - r.tol - 1) * r.den) \div (r.num * UNIT)
 
+RepCap(r, e) == LET S == {t \in ToSet(r.repcaps) : <<t[1], t[2]>> = e} IN IF S = {} THEN 1000000 ELSE (CHOOSE t \in S : TRUE)[3]
+
 Init ==
   /\ tid \in DOMAIN Recs
   /\ acc = [e \in Req(Recs[tid]) |-> 0]
@@ -64,13 +67,14 @@ Init ==
   /\ lastw = MaxVal(Recs[tid])
   /\ cura = [e \in Req(Recs[tid]) |-> 0]
   /\ curs = [e \in Req(Recs[tid]) |-> 0]
+  /\ curn = [e \in Req(Recs[tid]) |-> 0]
 
 Start(x, s) ==
   /\ cur = IDLE /\ cnt < R.k
   /\ x \in 0..lastw
   /\ s \in (IF IsMPE(R) THEN 0..(SlackBudget(R) - tot) ELSE {0})
   /\ cur' = SRC /\ w' = x /\ sl' = s /\ lastw' = x /\ cnt' = cnt + 1 /\ tot' = tot + s /\ hit' = {}
-  /\ cura' = [e \in Req(R) |-> 0] /\ curs' = [e \in Req(R) |-> 0]
+  /\ cura' = [e \in Req(R) |-> 0] /\ curs' = [e \in Req(R) |-> 0] /\ curn' = [e \in Req(R) |-> 0]
   /\ UNCHANGED <<tid, acc, slk, sat>>
 
 Step(e) ==
@@ -90,6 +94,10 @@ Step(e) ==
   /\ (R.prodcap >= 0 /\ e \in Req(R)) => cura[e] + w <= R.prodcap
   /\ curs' = IF R.prodcap >= 0 /\ e \in Req(R) THEN [curs EXCEPT ![e] = @ + sl] ELSE curs
   /\ (R.prodcap >= 0 /\ e \in Req(R)) => curs[e] + sl <= R.prodcap
+  (* Second named deviation (KF-C07-repetition-cap): the walk models cap how often ONE walk may traverse an edge
+     (r.repcaps: the caps the code itself computed, recorded from the model). *)
+  /\ curn' = IF R.repcaps # <<>> /\ e \in Req(R) THEN [curn EXCEPT ![e] = @ + 1] ELSE curn
+  /\ (R.repcaps # <<>> /\ e \in Req(R)) => curn[e] + 1 <= RepCap(R, e)
   /\ UNCHANGED <<tid, w, sl, lastw, cnt, tot>>
 
 Next == (\E x \in 0..lastw : \E s \in 0..(IF IsMPE(R) THEN SlackBudget(R) ELSE 0) : Start(x, s))
